@@ -512,6 +512,16 @@ func runC16(c *Ctx) {
 		c16One(c, []byte(k))
 		c16One(c, []byte(k+"1 "+k+"_ "+strings.ToUpper(k)+" "+k+"("+k+")"))
 	}
+	// line comments ending in every pair of: the 19 multi-byte Unicode spaces, ASCII spaces, truncated / stray UTF-8 bytes
+	pool := []string{"\xc2\x85", "\xc2\xa0", "\xe1\x9a\x80", "\xe2\x80\x80", "\xe2\x80\x81", "\xe2\x80\x82", "\xe2\x80\x83", "\xe2\x80\x84",
+		"\xe2\x80\x85", "\xe2\x80\x86", "\xe2\x80\x87", "\xe2\x80\x88", "\xe2\x80\x89", "\xe2\x80\x8a", "\xe2\x80\xa8", "\xe2\x80\xa9", "\xe2\x80\xaf",
+		"\xe2\x81\x9f", "\xe3\x80\x80", " ", "\t", "\r", "\x0b", "\x0c", "\x80", "\x85", "\xa0", "\xc2", "\xe2", "\xe2\x80", "\xe2\x80\x8b", "\xe1\x9a", "\xf0\x9f\x98\x80", "x"}
+	for _, a := range pool {
+		for _, b := range pool {
+			c16One(c, []byte("// c"+a+b))
+		}
+		c16One(c, []byte("//"+a+"x"+a+"\ny"))
+	}
 	// exhaustive: all single bytes, all pairs of bytes
 	all := make([]byte, 256)
 	for i := range all {
